@@ -65,14 +65,24 @@ def r1_compare(chk, fx):
                      None, holds=True)
         return
     # cross-check of the two evaluators on the form both can read
+    coll_agrees = False
     try:
         rows2 = AC.decision_table_collections(fx)
         same = {(e, i): k for (e, i, _, k) in rows} == {(e, i): k for (e, i, _, k) in rows2} or \
             all(k == dict(((e2, i2), k2) for (e2, i2, _, k2) in rows2).get((e, i)) or (e, i) == ("absent", "absent") for (e, i, _, k) in rows)
         chk.instance("C01/R1", "the collection-level evaluation of compare (finite abstract maps) gives the same table", n, None, holds=same,
                      key="C01/R1 compare evaluators-disagree", detail=None if same else str([(e, i, k) for (e, i, _, k) in rows2]))
+        want2 = {("present/ranges=Some", "present"): "update", ("present/ranges=Some", "absent"): "update", ("present/ranges=None", "present"): "none",
+                 ("present/ranges=None", "absent"): "none", ("absent", "present"): "delete"}
+        coll_agrees = same and all(dict(((e, i), k) for (e, i, _, k) in rows2).get(key) == v for key, v in want2.items())
     except F.AnchorLost:
         pass
+    if coll_agrees:
+        # every representative name of either map received its decision when compare was run on the finite maps: the name set it works
+        # over is the union, however it is built (chain + collect, collect + extend, two passes)
+        chk.instance("C01/R1", "names = keys(evaluated) ∪ keys(installed): established by the collection-level evaluation (every name of either map is decided)",
+                     n, None, holds=True)
+        return
     # names = union of both key sets: the iterator the decision closure is applied to derives from keys(self.map) and keys(installed.map)
     from vlib import absint as A
     cname = AC.find_compare(fx)
@@ -492,29 +502,80 @@ def r4_installed_reader(chk, fx):
     chk.instance("C01/R4", "every <route-filter> of a term is read and pushed (arm guarded by the element name only, one unconditional push)", rn,
                  loc_of(pushes[0][3].get("sp")) if pushes else None, holds=ok, key="C01/R4 TermFrom pushes-every-route-filter")
     # Maybe<Installed>: family arm table
-    rn = "<" + FETCH + "Maybe<" + AGENT + "::policies::Installed> as netconf::message::ReadXml>::read_xml"
-    rt = fx.thir.get(rn)
-    if rt is None:
-        raise F.AnchorLost("reader %s not found" % rn)
+    _installed_family_table(chk, fx)
+
+
+def _installed_family_table(chk, fx):
+    """inet -> Installed.ipv4 = the term's <from> as Ipv4 ranges, inet6 -> Installed.ipv6 = the same as Ipv6 ranges.  Decided on the explored
+    paths of Maybe<Installed>::read_xml (the term reader returns one symbolic term, `try_into_ranges::<A>` an opaque value carrying A):
+    on every path of one pass over a <term> that assumed the term's family equal to exactly one literal, exactly one loop-carried variable
+    receives the ranges of that family's address type, made from that term's <from>; and after the loop the variable that received the
+    Ipv4 ranges ends in field `ipv4` of the result, the other in `ipv6`.  Helpers the dispatch is moved into are inlined."""
+    from vlib import absint as A
+    import re
+    rn = None
+    for n in fx.thir:
+        if n.endswith("::read_xml") and "Maybe<" + AGENT + "::policies::Installed>" in n:
+            rn = n
+    if rn is None:
+        raise F.AnchorLost("reader Maybe<Installed>::read_xml not found")
+    rt = fx.thir[rn]
     chk.analysed(rn)
+
+    def hook(fn, args, node, interp):
+        g = node.get("gargs") or []
+        if fn.endswith("borrowed_read_xml") and g and "fetch::Term<" in g[0]:
+            return A.ok(("sym", "TERM"))
+        if fn.endswith("::try_into_ranges"):
+            return A.ok(("term", "RANGES:" + (g[-1] if g else "?"), (args[0],)))
+    paths = A.Interp(fx, hook=hook, crates=(AGENT,), max_paths=6000).explore(rn)
     fam = {}
-    for m in T.find(T.norm(rt["body"]), "Match"):
-        if "term.from.family" not in X.ntext(m["scrut"]):
+    n_it = 0
+    for p in paths:
+        if p.end != "iter-end":
+            continue    # a pass over one child element that ran to its end (error exits store nothing)
+        asg = {(a[1], A.vstr(a[2])) for a in p.assigns() if "RANGES:" in A.vstr(a[2])}
+        lits = sorted({m.group(1) for k, v in p.assume.items() if v is True for m in [re.match(r'eq:«TERM»\.from\.family:"(\w+)"$', k)] if m})
+        if len(lits) != 1:
+            if asg and not lits:
+                fam.setdefault("(any family)", set()).update(asg)
             continue
-        for a in m["arms"]:
-            v = T.const_pat_value(a["pat"])
-            if v is None:
-                continue
-            for asg in T.find(a["body"], "Assign"):
-                c = [c for c in T.calls(asg["rhs"]) if c["fn"].endswith("::try_into_ranges")]
-                fam[v] = (X.ntext(asg["lhs"]), c[0]["gargs"][-1] if c else None, X.ntext(c[0]["args"][0]) if c else None)
-    ok = fam == {"inet": ("ipv4", "ip::Ipv4", "term.from"), "inet6": ("ipv6", "ip::Ipv6", "term.from")}
-    chk.instance("C01/R4", "installed term table: inet -> ipv4 = term.from as Ipv4 ranges, inet6 -> ipv6 = term.from as Ipv6 ranges (%s)" % fam, rn,
+        n_it += 1
+        fam.setdefault(lits[0], set()).update(asg or {(None, "nothing")})
+    var = {}
+    ok = True
+    for lit_, afi in (("inet", "ip::Ipv4"), ("inet6", "ip::Ipv6")):
+        got = fam.get(lit_, set())
+        good = len(got) == 1 and list(got)[0][0] is not None and list(got)[0][1] == "Some(RANGES:%s(«TERM».from))" % afi
+        ok = ok and good
+        if good:
+            var[afi] = list(got)[0][0]
+    ok = ok and set(fam) == {"inet", "inet6"} and len(set(var.values())) == 2
+    shown = {k: sorted(v, key=str) for k, v in sorted(fam.items())}
+    chk.instance("C01/R4", "installed term table: inet -> ipv4 = term.from as Ipv4 ranges, inet6 -> ipv6 = term.from as Ipv6 ranges (%s)" % shown, rn,
                  loc_of(rt.get("sp")), holds=ok, key="C01/R4 Maybe<Installed> family table")
-    lit = [a for a in T.find(T.norm(rt["body"]), "Adt") if a["adt"].endswith("policies::Installed")]
-    ok = len(lit) == 1 and all(_var_under(f["expr"], allowed=("Option::unwrap_or_default",)) == f["name"] for f in lit[0]["fields"])
-    chk.instance("C01/R4", "Installed{ipv4, ipv6} takes the collected sets (absent family = empty set)", rn, loc_of(rt.get("sp")), holds=ok,
-                 key="C01/R4 Maybe<Installed> literal wiring")
+    chk.floor("C01/R4 paths over one <term> with a decided family", n_it, 2)
+    # the collected sets end in the field of their family (absent family = empty set)
+    n = 0
+    wired = True
+    for p in paths:
+        if p.end not in ("return", "fallthrough") or not (A.is_res(p.ret) and p.ret[2] == "Ok"):
+            continue
+        for x in A.walk_value(p.ret):
+            if isinstance(x, tuple) and x and x[0] == "adt" and str(x[1]).endswith("policies::Installed") and not A.is_opt(x):
+                n += 1
+                txt = A.vstr(x)
+                for field, afi in (("ipv4", "ip::Ipv4"), ("ipv6", "ip::Ipv6")):
+                    m = re.search(r"\b%s: ((?:[^,{}()]|\([^()]*\))*)" % field, txt)
+                    want = var.get(afi)
+                    other = var.get("ip::Ipv6" if afi == "ip::Ipv4" else "ip::Ipv4")
+                    val = m.group(1).strip() if m else ""
+                    absent = p.assume.get("variant:«loop:%s»" % want) == "None" and val == "Default::default()"
+                    if not (m and want and ("«loop:%s»" % want in val or absent) and "«loop:%s»" % other not in val):
+                        wired = False
+    if var and len(var) == 2:
+        chk.instance("C01/R4", "Installed{ipv4, ipv6} takes the collected sets (absent family = empty set)", rn, loc_of(rt.get("sp")), holds=wired and n > 0,
+                     key="C01/R4 Maybe<Installed> literal wiring")
 
 
 # ---------------------------------------------------------------------------------------------
